@@ -542,6 +542,8 @@ void SessionManager::accept_loop() {
             continue;
         }
 
+        // The accept loop is serial: bound the wait for the identity bytes as well as for the handshake.
+        set_recv_timeout(from_native(client_socket), kHandshakeTimeout);
         std::array<std::uint8_t, kPeerIdSize> peer_bytes{};
         if (!recv_all(from_native(client_socket), peer_bytes.data(), peer_bytes.size())) {
             close_socket(from_native(client_socket));
